@@ -147,6 +147,10 @@
         assert!(d.limit <= N && d.has_space());
         d.reset();
         assert!(d.pos == 0 && d.full == 0 && d.start == 0 && d.limit == 0);
+        // empty history: the "previous byte" the literal coder asks for (get_byte(0)) reads as 0, as on the encoder side
+        assert!(d.get_byte(0) == 0);
+        let f = LZDecoder::new(N, None);
+        assert!(f.get_byte(0) == 0 && f.pos == 0 && f.full == 0 && f.start == 0 && f.limit == 0 && !f.has_pending());
     }
 
     /// C05.lz.copy / C16.l2.exact: copy_uncompressed reads exactly min(len, room) bytes with read_exact semantics; a
